@@ -287,7 +287,7 @@ def exitIdle (s : St) : St × List Ev :=
 /-- `Close` -/
 def close (s : St) : St × List Ev :=
   let (s, ev) := closeSubConns s
-  ({ cancelTimer s with state := .shutdown }, ev)
+  ({ cancelTimer s with state := .shutdown, sticky := false }, ev)
 
 /-- the happy-eyeballs timer callback -/
 def timerFire (s : St) : St × List Ev :=
@@ -371,7 +371,7 @@ def healthState (s : St) (id : Nat) (st : ConnState) (err : Nat) : St × List Ev
     | .connecting => pushState s .connecting .queue
     | _ => (s, [])
 
-inductive PickRes | sc (id : Nat) | queue | err | nopicker
+inductive PickRes | sc (id : Nat) | queue | err | empty | nopicker
 deriving DecidableEq, Repr
 
 /-- `Pick` on the channel's picker (the idle picker calls ExitIdle, once) -/
@@ -380,7 +380,7 @@ def pick (s : St) : St × List Ev × PickRes :=
   | .none => (s, [], .nopicker)
   | .queue => (s, [], .queue)
   | .ready id => (s, [], .sc id)
-  | .connErr e => (s, [], if e = 0 then .sc 0 else .err)   -- picker{err: nil}: empty result, nil error
+  | .connErr e => (s, [], if e = 0 then .empty else .err)   -- picker{err: nil}: empty result, nil error
   | .resErr => (s, [], .err)
   | .healthErr _ => (s, [], .err)
   | .idle used =>
